@@ -1,6 +1,7 @@
 (* C10 — Gradient-based optimizers report consistent solutions and make progress.
-   Only statements + `exact`; proofs live in C10Proofs.v, C10LsProofs.v, C10BfgsProofs.v, the executable model in
-   C10Model.v and C10LsModel.v.
+   Only statements + `exact`; proofs live in C10Proofs.v, C10LsProofs.v, C10BfgsProofs.v, C10LbfgsProofs.v, C10LbfgsBoxProofs.v,
+   C10AdamRpropProofs.v, C10CgProofs.v, the executable model in C10Model.v, C10LsModel.v and - written once over an abstract
+   number type (C10Gen.v, C10AdamRprop.v) and instantiated with the exact rationals - C10LbfgsModel.v, C10AdamRprop.v.
 
    PROPERTY (properties.jsonl): after init and after every step the reported best value equals the objective
    at the reported best point, the point is finite and (box-constrained objectives) feasible; line-search
@@ -16,21 +17,22 @@
      * C10_steepestdescent_state_consistent   the same for SteepestDescent (learning rate + momentum).
      * C10_backtracking_never_increases   one backtracking call along a non-ascent direction.
      * C10_linesearch_monotone_partial    every step of a whole run, for every direction rule that never
-         returns an ascent direction (backtracking).  The hypothesis is false for CG as coded (the reset branch
-         keeps the old direction, cg_dir "sic"); it is DISCHARGED for BFGS below.
+         returns an ascent direction (backtracking).  The hypothesis is false for CG as coded on non-convex objectives
+         (Part 6: exactly when; NOT because of the reset branch that keeps the old direction); it is DISCHARGED for BFGS
+         (Part 3), for L-BFGS (Part 4) and for CG on objectives that are convex along rays (Part 6).
      * C10_steepest_descent_direction_monotone   instance without hypothesis (direction -gradient; this is
          also the first step of every line-search optimiser).
      * C10_box_feasible_partial, C10_box_feasible_slack_partial (the box widened by the 1e-13 slack of
          BoxConstraintHandler::isFeasible, which is the test the code uses)   box constraints, backtracking: every iterate is feasible for every
          objective and every direction rule returning d with x + d in the box.  PARTIAL: that hypothesis is
-         what LBFGS::computeSearchDirection checks at run time (SHARK_RUNTIME_CHECK "internal error");
-         getBoxConstrainedDirection itself (dog-leg) is not modelled.  Satisfiable: proj_oracle_feasible.
+         what LBFGS::computeSearchDirection checks at run time (SHARK_RUNTIME_CHECK "internal error"); it is
+         DISCHARGED for L-BFGS in Part 4 (C10_lbfgs_box_feasible).  Satisfiable: proj_oracle_feasible.
      * C10_box_feasible_penalised_partial  one step, for objectives that report infeasible points as not
          better than feasible ones (hypothesis), any direction.
      * C10_linesearch_saverestore_continues / C10_cg_saverestore_continues / C10_bfgs_saverestore_continues   the
          archived member list of AbstractLineSearchOptimizer (+ m_count for CG, + m_hessian for BFGS) is the complete
-         model state: restoring into ANY instance and continuing gives the same iterates.  PARTIAL w.r.t. the
-         property: L-BFGS/Adam/Rprop member lists are not modelled (monitored; C18 generates their obligations).
+         model state: restoring into ANY instance and continuing gives the same iterates.  L-BFGS, Adam and Rprop:
+         Parts 4 and 5.
      * C10_steepestdescent_saverestore_continues   the member list of SteepestDescent::read/write (path, learning
          rate, momentum, derivative, point, value - as coded since the repair c36da89f of finding F16) is complete;
          the earlier list (path, rate, momentum) was not: steepestdescent_coded_restore_refuted in C10Proofs.v is
@@ -69,12 +71,80 @@
          C10_linesearch_monotone_partial is gone for BFGS.  (Exact arithmetic: in floating point y's >= 1e-20 does not
          protect against loss of definiteness by rounding; monitored.)
 
+   Part 4: L-BFGS (LBFGS.cpp; C10Gen.v / C10LbfgsModel.v; C10LbfgsProofs.v, C10LbfgsBoxProofs.v):
+     * C10_lbfgs_history_skip_rule / _store_rule   updateHist as coded: a pair is stored iff y's > m_updThres (1e-10), the OLDEST
+         pair is dropped iff the history already holds m_numHist pairs, m_bdiag := y'y / y's.
+     * C10_lbfgs_two_loop_is_matrix / _entries   multBInv (the two loops over the arrays, as coded) computes H x for H = lb_H =
+         the BFGS inverse updates (bfgs_update of Part 3) of the stored pairs, oldest first, applied to (1/m_bdiag) I: every
+         history length, every dimension.  C10_lbfgs_matrix_spd: H is symmetric positive definite when m_bdiag > 0 and all
+         stored y's > 0.
+     * C10_lbfgs_direction_descent   after init and every step, all line-search types, every oracle, every m_numHist:
+         m_bdiag > 0, EVERY stored pair has y's > 1e-10 (the code cannot store a pair with y's <= 0 - in exact arithmetic; the
+         floating-point y's is recomputed from the same two vectors by multBInv, so it is the tested number), the history
+         holds at most m_numHist pairs (the bound that keeps rho(i) / alpha(i) inside their m_numHist-sized arrays; NOT
+         covered: lowering m_numHist by setHistCount between two steps, which makes multBInv write beyond them), H is
+         symmetric positive definite, g'd < 0 for g != 0.  C10_lbfgs_monotone: every unconstrained L-BFGS step is monotone.
+     * C10_lbfgs_box_direction_feasible   getBoxConstrainedDirection as coded (after e082c2d6 / 42faa67e): for every input
+         x + d stays in the box widened by the 1e-13 slack of isFeasible (all three branches; no relation between lower
+         and upper needed).  C10_lbfgs_box_feasible: every iterate of box-constrained L-BFGS is feasible;
+         C10_lbfgs_box_internal_check_holds: the run-time check "internal error" never fires (exact arithmetic).
+         NOT PROVED: that the box direction is a descent direction or zero (it is: -p0'H p0 in the full-step branch, a
+         non-negative multiple of -|p0|^2 / p0'B p0 in the Cauchy branch, a convex combination in the dog-leg branch - needs
+         multB = inverse of multBInv / positive definiteness of the compact representation; monitored on every replayed step).
+     * C10_lbfgs_saverestore_continues + C10_lbfgs_threshold_constant   the archived list (base + m_numHist, m_bdiag, m_steps,
+         m_gradientDifferences) is complete for every instance whose m_updThres equals the saved one; initModel sets it to
+         the constant 1e-10, so every init-ed instance qualifies.  m_updThres itself is NOT archived:
+         C10_ex_lbfgs_restore_other_threshold_refuted (not reachable through init, which LineSearch needs anyway).
+   Part 5: Adam and Rprop (C10AdamRprop.v; C10AdamRpropProofs.v).  solution().value of both classes is the value returned by
+   evalDerivative at solution().point at the end of init / step; std::sqrt is an arbitrary function, std::pow the exact power:
+     * C10_adam_state_consistent (value, derivative, m_counter = number of steps, parameters untouched),
+       C10_adam_second_moment_nonneg (the argument of sqrt is not negative for 0 <= beta2 <= 1), C10_adam_saverestore_continues.
+     * C10_rprop_state_consistent (all four variants + the two unnamed flag combinations, every feasibility predicate),
+       C10_rprop_delta_positive (every feasibility predicate), C10_rprop_delta_range_partial (inside [minDelta, maxDelta] on
+       unconstrained objectives; FALSE with box constraints as coded: the infeasible branch multiplies by m_decreaseFactor
+       without the clamp, C10_ex_rprop_box_delta_below_min_refuted; the initial step size is not clamped either),
+       C10_irprop_plus_undoes_increase (after a step that increased the value every coordinate whose partial derivative
+       changed sign is back where it was), C10_rprop_saverestore_continues (list as repaired by 9fe8fcd6; the earlier list:
+       C10_ex_rprop_old_list_restore_refuted).
+     * OBSERVED AND PROVED AS CODED: C10_rprop_stale_step_as_coded - with backtracking and the old-value test (iRprop+, the
+       default) a sign change WITHOUT an increase of the value assigns nothing to m_deltaw(i), and "point(i) += m_deltaw(i)"
+       repeats the previous step of the coordinate, i.e. moves it further against the new sign of the derivative
+       (C10_ex_irprop_plus_stale_step: values 21, 7, 89 on a convex quadratic; the C++ gives the same numbers).  iRprop+ as
+       published makes no move there.  Not a clause of the property (Rprop is not a line-search method): reported.
+   Part 6: CG as coded (C10CgProofs.v):
+     * C10_cg_direction_ascent_iff   with g_last'd < 0: the new direction is an ascent direction iff it comes from the main
+         branch and d'(g - g_last) < -1e-10 g'g (the slope along d decreased: negative curvature along the step; beta is the
+         Dai-Yuan quotient g'g / d'(g - g_last) and g'd_new = g'g g_last'd / d'(g - g_last)).  The reset branch that keeps the
+         old direction never gives one.  C10_cg_direction_nonascent: the guard d'(g - g_last) >= 0 excludes it.
+     * C10_cg_monotone_convex_partial   on objectives whose slope along a direction does not decrease along the ray, with
+         WolfeCubic / Backtracking and oracles without negative proposals, every CG step is monotone.  PARTIAL: false for all
+         objectives, C10_ex_cg_ascent_direction_refuted (dyadic indefinite quadratic; the C++ gives the same g'd > 0).  An
+         ascent direction does not by itself increase the objective: Backtracking accepts x + t d only if f < value +
+         1e-4 t g'd, i.e. an increase below 1e-4 t g'd (seen once in 18000 CG steps on indefinite quadratics: 1.8e-15), and
+         otherwise keeps the point; no increase was observed on the generated family of the property.
+
    WHAT IS ONLY COMPARED (tools/c10.py, every run): the extracted model against the C++ on generated dyadic
    quadratics (exact equality of point, value, derivative, direction, step length, last point/derivative/value,
-   CG counter, line-search type, BFGS matrix) for a harness subclass of AbstractLineSearchOptimizer with direction
-   -gradient, for CG, for BFGS (two to three steps = two updates of the matrix, save/restore), for the first step of
-   L-BFGS (with and without box), and for SteepestDescent; tolerance 1e-9 after the first inexact floating-point
-   operation (CG's beta, BFGS' divisions).
+   CG counter, line-search type, BFGS matrix, L-BFGS history / m_bdiag) for a harness subclass of AbstractLineSearchOptimizer
+   with direction -gradient, for CG, for BFGS (two to three steps = two updates of the matrix, save/restore), for L-BFGS with
+   and without box (whole histories incl. save/restore while the exact rationals stay below 200 bits, i.e. 2-3 stored pairs),
+   and for SteepestDescent; tolerance 1e-9 after the first inexact floating-point operation (CG's beta, the divisions of
+   BFGS / L-BFGS).
+   ONE-STEP REPLAYS from the implementation's own previous state (every single step S of every L-BFGS / Adam / Rprop history
+   of the run; the harness prints the complete private state): the GENERIC model functions of C10Gen.v / C10AdamRprop.v - the
+   very terms whose rational instances the theorems are about - instantiated with IEEE doubles recompute
+     * L-BFGS: updateHist (stored / skipped / oldest dropped: exact equality of the history) and the direction (multBInv
+       resp. getBoxConstrainedDirection incl. multB), 1e-10 relative; y and s are recomputed by the same two subtractions;
+       steps whose y's is within rounding of the threshold are counted and skipped.  Streams: history shorter than / equal to
+       / longer than the memory, y's tiny (objective scaled by 2^-8..2^-16) or negative (indefinite quadratics), small boxes
+       with the start on a bound (fixed coordinates, Cauchy and dog-leg branches);
+     * Adam: moments, counter, point (bitwise equal on this platform; 1e-10 allowed);
+     * Rprop: point, step sizes, last steps, derivative memory, old value (double instance: bitwise equal; rational instance:
+       1e-10): four variants + two unnamed flag combinations, sign changes, clamps at minDelta / maxDelta, box constraints
+       with infeasible candidates;
+   the objective oracles of the replayed step return the value / derivative the implementation reports after the step.
+   The witnesses C10_ex_irprop_plus_stale_step, C10_ex_rprop_box_delta_below_min_refuted, C10_ex_cg_ascent_direction_refuted
+   are run on the C++ and must give the numbers of the Examples.
    Single calls of LineSearch::operator() (all three types) on a hooked objective whose values are a hash of the
    evaluated point (small dyadic numbers, many ties) or linear up to a threshold: the harness logs the order and the
    step lengths of all evaluations, tools/c10.py turns the log into the oracle, the extracted [linesearch] must return
@@ -89,22 +159,28 @@
    feasibility (BoxConstraintHandler::isFeasible, i.e. with its 1e-13 slack), monotonicity of line-search methods,
    minimiser reached within the step budget (CG/BFGS/L-BFGS on quadratics with condition <= 1e4),
    save-at-k / restore into a fresh differently initialised instance / continue equality; single line-search calls:
-   consistency, no increase, result independent of the previous stack contents.
+   consistency, no increase, result independent of the previous stack contents; replayed steps: the L-BFGS direction is a
+   descent direction (box: not an ascent direction) and point + direction is inside the box, Rprop's step sizes are positive
+   and (unconstrained) inside [minDelta, maxDelta], iRprop+ takes the coordinates back after an increase, Adam's second
+   moment is not negative.
    OBSERVED, outside the model: wlsCubicInterp returns NaN (0/0) when the two bracket ends have equal values and opposite
    slopes with the lower end rising, more generally (f2-f1)/(t2-t1) = (g1+g2)/6 with g1 >= g2; wolfecubic then evaluates
    the objective at a NaN point.  In the check this happened only along ASCENT directions (incoming g'd > 0; 4 of 60000
    calls on the hash objective, whose gradient is not the derivative of its value), never with g'd < 0: the first bracket
    [0, t] cannot be degenerate then (its lower end has the most negative slope and the upper end failed a test), and on a
    convex objective g1 >= g2 forces a flat piece, where the search has already stopped.  No input with a consistent state, a
-   descent direction and a differentiable objective was found; BFGS never passes an ascent direction
-   (C10_bfgs_direction_descent).  Such calls are counted (nonfinite) and not compared.
+   descent direction and a differentiable objective was found; BFGS and L-BFGS never pass an ascent direction
+   (C10_bfgs_direction_descent, C10_lbfgs_direction_descent).  Such calls are counted (nonfinite) and not compared.
    NOT COVERED: convergence proofs; the numerics of the interpolation / Brent / golden-section steps (that the oracle's
-   proposals are the ones the formulas give; that wolfecubic's result satisfies the Wolfe conditions); the L-BFGS
-   two-loop recursion and dog-leg; CG's direction is not a descent direction as coded; TrustRegionNewton, which is
+   proposals are the ones the formulas give; that wolfecubic's result satisfies the Wolfe conditions); descent of the
+   box-constrained L-BFGS direction (monitored); rounding: every theorem is about exact rationals (floating point can lose
+   y's > 0, positive definiteness, positivity of a step size after ~1075 halvings, and can put x + alpha c one ulp outside
+   the bound - inside the 1e-13 slack); Adam's setters accept beta >= 1 (bias correction 1 - beta^t <= 0: division by zero /
+   sqrt of a negative number) - outside the generated configurations; TrustRegionNewton, which is
    abstract in this tree (its init takes a non-const objective and does not override the pure virtual init): no
    object exists to check. *)
 From Coq Require Import List QArith Qreduction Qabs Bool Arith.
-From SharkV Require Import C10Model C10Proofs C10LsModel C10LsProofs C10BfgsProofs C10Gen C10LbfgsModel C10LbfgsProofs C10LbfgsBoxProofs C10AdamRprop C10AdamRpropProofs.
+From SharkV Require Import C10Model C10Proofs C10LsModel C10LsProofs C10BfgsProofs C10Gen C10LbfgsModel C10LbfgsProofs C10LbfgsBoxProofs C10AdamRprop C10AdamRpropProofs C10CgProofs.
 Import ListNotations.
 Open Scope Q_scope.
 
@@ -616,6 +692,51 @@ Theorem C10_rprop_saverestore_continues :
 Proof. exact rprop_saverestore_continues. Qed.
 Print Assumptions C10_rprop_saverestore_continues.
 
+(* ====================================================================================================
+   CG as coded (cg_dir; proofs C10CgProofs.v).  divisor = d'(g - g_last), the change of the slope along the old direction *)
+
+(* EXACT CHARACTERISATION of the ascent directions of CG::computeSearchDirection: if the old direction was a descent
+   direction where the line search started (g_last'd < 0), the new direction is an ascent direction (g'd_new > 0) exactly
+   when it comes from the main branch (no periodic reset) with d'(g - g_last) < -1e-10 g'g: the slope along d DEcreased
+   over the step.  The reset branch that keeps the old direction (d := d - g, "sic" in C10Model.v) and the periodic reset
+   never produce one. *)
+Theorem C10_cg_direction_ascent_iff :
+  forall (n : nat) (s : ls_state nat),
+    length (der s) = n -> length (sdir s) = n -> length (last_der s) = n ->
+    dot (sdir s) (last_der s) < 0 ->
+    (0 < dot (der s) (snd (cg_dir s)) <->
+     Nat.eqb (S (extra s)) (dim s) = false /\ 0 < dot (der s) (der s) /\
+     dot (sdir s) (vsub (der s) (last_der s)) < - (cg_eps * dot (der s) (der s))).
+Proof. exact cg_dir_ascent_iff. Qed.
+Print Assumptions C10_cg_direction_ascent_iff.
+
+(* the GUARD that excludes it: the slope along the old direction did not decrease *)
+Theorem C10_cg_direction_nonascent :
+  forall (n : nat) (s : ls_state nat),
+    length (der s) = n -> length (sdir s) = n -> length (last_der s) = n ->
+    dot (sdir s) (last_der s) <= 0 -> 0 <= dot (sdir s) (vsub (der s) (last_der s)) ->
+    dot (der s) (snd (cg_dir s)) <= 0.
+Proof. exact cg_dir_nonascent. Qed.
+Print Assumptions C10_cg_direction_nonascent.
+
+(* hence: on every objective whose slope along a direction does not decrease along the ray (convex objectives; hypothesis
+   satisfiable: C10_ex_cg_convex_objective), with WolfeCubic or Backtracking (they stay on the ray; Dlinmin does not) and
+   oracles without negative proposals, the stored direction of CG is never an ascent direction and EVERY CG STEP IS MONOTONE:
+   the hypothesis of C10_linesearch_monotone_all_types_partial is discharged for CG on this class.
+   full statement (false as coded: C10_ex_cg_ascent_direction_refuted): for all objectives *)
+Theorem C10_cg_monotone_convex_partial :
+  forall (f : vec -> Q) (grad : vec -> vec) (feasible : vec -> bool) (n : nat),
+    (forall x, length x = n -> length (grad x) = n) ->
+    (forall x d t, length x = n -> length d = n -> 0 <= t -> 0 <= dot d (vsub (grad (vadd x (vscale t d))) (grad x))) ->
+    forall (constrained : bool) (lstype : nat) (x0 : vec) (orcs : nat -> ls_oracle) (k : nat) (o : ls_oracle) (s s' : ls_state nat),
+    length x0 = n -> (constrained = true \/ lstype <> 0%nat) ->
+    (forall j, (forall k q, 0 <= q -> 0 <= o_wexp (orcs j) k q) /\ (forall k, 0 <= o_wzoom (orcs j) k)) ->
+    ls_run_o f grad nat cg_dir orcs 0 k (ls_init_o f grad feasible nat cg_init_model constrained lstype x0) = Some s ->
+    ls_step_o f grad nat cg_dir o s = Some s' ->
+    dot (der s) (sdir s) <= 0 /\ val s' <= val s /\ f (pt s') <= f (pt s).
+Proof. exact cg_monotone_on_convex. Qed.
+Print Assumptions C10_cg_monotone_convex_partial.
+
 (* hypotheses are satisfiable / conclusions are not vacuous *)
 Example C10_ex_quadratic_run : strictly_decreasing (map val exq_trace) = true.
 Proof. exact (proj1 quadratic_iterates_decrease). Qed.
@@ -705,3 +826,14 @@ Example C10_ex_rprop_old_list_restore_refuted :
   | None => false
   end = true.
 Proof. exact rprop_old_list_restore_refuted. Qed.
+(* CG: the convexity hypothesis of C10_cg_monotone_convex_partial holds for the gradient of x^2 + 2y^2 - x - y/2 *)
+Example C10_ex_cg_convex_objective : forall x d t, length x = 2%nat -> length d = 2%nat -> 0 <= t ->
+  0 <= dot d (vsub (exq_grad (vadd x (vscale t d))) (exq_grad x)).
+Proof. exact exq_ray_monotone. Qed.
+(* CG with Backtracking on the indefinite quadratic 1/2 x'Ax - b'x, A = [[-1, 1/2], [1/2, -1/2]], b = (-3/2, 1/2), start
+   (1/2, -4): the first direction is a descent direction, the direction after the first step is an ASCENT direction
+   (g'd = 993005/48224); the C++ is run on this input by tools/c10.py and must give the same g'd *)
+Example C10_ex_cg_ascent_direction_refuted :
+  dot (last_der (cgx 1)) (sdir (cgx 0)) < 0 /\ 0 < dot (der (cgx 1)) (sdir (cgx 1)) /\
+  Qeq_bool (dot (der (cgx 1)) (sdir (cgx 1))) (993005 # 48224) = true /\ val (cgx 2) < val (cgx 1).
+Proof. exact cg_ascent_direction_refuted. Qed.
